@@ -5,9 +5,11 @@
 //! exit: 0 property held on everything explored; 1 violation; 2 harness error.
 
 #![allow(dead_code, non_snake_case, unused_mut)]
+mod c18;
 mod c19;
 mod core;
 mod dev;
+mod model;
 mod moduli;
 mod monitor;
 mod prng;
@@ -57,6 +59,21 @@ fn scenarios_for(prop: &str) -> Option<(Vec<Box<dyn Scenario>>, Report)> {
                     "num-bigint comparison",
                     "uniformity is a statistical judgement: chi-square, reject only below p = 1e-12 per test",
                     "no algorithm-level model of the sampler: value and consumption are never predicted, only compared fixed vs boxed",
+                ],
+            ),
+        )),
+        "C18" => Some((
+            vec![Box::new(c18::Der), Box::new(c18::Rlp)],
+            base(
+                "C18",
+                "fault_enumeration",
+                "one run = one record-store plan. Enumerated part: for every width and every content length 0..=BYTES+4, every (leading octet class x second octet class x body) content under every tag / length-field form / entry point (from_der, SliceReader over SEQUENCE{INTEGER,INTEGER}, TryFrom<AnyRef>, TryFrom<UintRef>; rlp::decode, Rlp::val_at). Seeded part: put(x) through the real encoder into a simulator-owned writer, 0-3 medium faults, get() through the real decoder; every truncation offset / appended length of a record; every writer capacity 0..=len+1 for SimDerWriter and SliceWriter. distinct_nontrivial = distinct abstract states (codec, entry point, width, reference verdict class of the bytes, length class / value class / writer outcome)",
+                &["storage medium (SimMedium faults: truncate, zero-tail, flip-bit, drop/dup byte, append, prepend, length-field corruption)", "der::Writer with a capacity (SimDerWriter)", "reference codecs DerIntRef / RlpIntRef (model/codec.rs, written from X.690 8.3/10.1 and the RLP spec)"],
+                &[
+                    "reference decoders state exactly: tag 02, definite minimal length, non-empty content, first octet < 0x80, no 0x00 pad unless next octet >= 0x80, magnitude <= BYTES, no trailing data at top level",
+                    "RLP framing: rlp::decode reads the first item and ignores trailing bytes (rlp crate view semantics) — not a codec violation",
+                    "to_be_bytes()/from_be_bytes() of the Encoding trait are the bridge between library values and integers for this property (C16 checks them positionally)",
+                    "RLP decoding exists only for U64..U256 (Repr: Default); encoders are run for every width",
                 ],
             ),
         )),
